@@ -5,6 +5,8 @@ BASE_NOTE = ("Bounded symbolic execution of the MIR rustc emits for /repo's curr
              "Z3 decides every branch and every obligation within the bounds listed in the evidence file; std/bytes/priority-queue items are reference models; "
              "counterexamples are replayed against the native build (dev and release) before VIOLATION is printed; exit 2 = inconclusive (unsupported construct, wall cap, or non-reproducing counterexample).")
 CLAIMED = {
+ 'C05': ("For every history of 3 (thorough 4) operations ins/get/prune on an empty SharedCache over 2 names x 3 data values, TTL symbolic over {0,1,2,3,4,1000} s, under a virtual clock advancing by symbolic multiples of 0.6875 s: every record a lookup returns was inserted with TTL>0, has not expired, reports TTL <= floor(remaining), is returned once, belongs to the asked name/type; TTL-0 inserts store nothing; re-insert restarts the lifetime without duplicate; a live (>= 1 s left), never-evicted record is returned by its type and by ANY. Sequential use only.", "§4 C05"),
+ 'C15': ("For the same kind of histories with desired size symbolic 0..2: after every operation the representation invariant holds (sizes are sums, next_expiry is the minimum expiry, both queues mirror the partitions, no (name,type,data) stored twice, current_size = number of entries); after every prune no record expired at prune time remains, size <= desired, the reported (overflow,size,expired,evicted) are the true numbers, names are evicted whole, least-recently-used first and only while over size; prune terminates (step cap). Sequential use only; thread interleavings are outside this technique.", "§4 C15"),
  'C16': ("from_labels accepts exactly the label sequences with a single final empty label and encoded length <= 255 (lengths symbolic over {0,1,62,63}, up to 6/7 labels, limit reached) and records that length; Label::try_from accepts exactly <= 63 octets and lower-cases; every ASCII text of up to 8/11 symbolic chars is accepted by from_dotted_string exactly when the reference reading accepts it, yields the lower-cased labels, equals its case-flipped spelling and survives to_dotted_string; joins and relative names satisfy the invariant or are rejected; is_subdomain_of equals label-wise suffix. Names decoded from the wire are checked for the invariant inside the C03 harnesses.", "§4 C16"),
  'C04': ("Integer<->enum codecs and the header codec are bijections over their full domains; every Message within the bounds (1 question, 2 records over all 19 RDATA variants, names from a symbolic universe so that equal/different names and hence compression are solver-decided) satisfies from_octets(to_octets(m)) == m and is read identically by the independent decoder; an emitted compression pointer addresses the first occurrence for every buffer offset 12..65535 (symbolic); re-encoding every decoded message of the C03 input families decodes to the same message.", "§4 C04"),
  'C02': ("For every zone within the bounds (apex root or z., SOA present/absent with symbolic minimum, 2 (thorough: also 3) records that are ordinary or wildcard at owners of depth 0..2 with solver-decided label coincidences, types A/NS/CNAME/TXT, symbolic TTL and data), every query name of depth 0..2/3 and every qtype of the representative set, Zone::resolve returns the kind (answer / CNAME / referral / name error) and exactly the record set that an RFC 1034 4.3.2 + RFC 4592 reference computes on the same symbolic inputs, with owner = query name (cut for referrals) and TTL = max(ttl, SOA minimum).", "§4 C02"),
@@ -17,7 +19,7 @@ NA = {
  'C18': "Which address is contacted is observable only at the transport across async nameserver-address resolution (hints, glue, cache, recursive lookup); not encodable within reach.",
  'C19': "Atomicity of reload concerns interleavings of a signal, file-system state and in-flight requests on a tokio RwLock in a live process; not encodable.",
 }
-PENDING = ['C01','C05','C06','C10','C11','C12','C13','C14','C15','C17']
+PENDING = ['C01','C06','C10','C11','C12','C13','C14','C17']
 def main():
     checks=[]
     for pid,(text,ref) in sorted(CLAIMED.items()):
